@@ -299,6 +299,21 @@ def random_plan(rng, money=False, max_base=4, max_derived=4, max_units=4,
                 names.pop()
                 tletter[name] = L
                 next(letters)
+    if rng.random() < 0.3:
+        # a pure power T ** e of one type, without its siblings (T ** -1,
+        # T ** 2 ...): short cuts through a missing sibling show here
+        tn = list(w.types)
+        name = names[-1]
+        L = alphabet[len(tletter)]
+        tb = rng.choice(tn)
+        if add(Decl("derived", name=name,
+                    items=[(tb, rng.choice([-3, -2, -2, 2, 3]))],
+                    ref=(L + "0") if w.types[tb].has_ref and
+                    rng.random() < 0.7 else None,
+                    form=rng.choice(["ops", "term"]), bare=True)):
+            names.pop()
+            tletter[name] = L
+            next(letters)
     for _ in range(rng.randint(1, max_derived)):
         for _try in range(6):
             tn = list(w.types)
